@@ -157,7 +157,14 @@ func (r *Report) Sample(v any) {
 	}
 }
 func (r *Report) H(k string) { r.Hist[k]++ }
+// replayIndex >= 0: only the case with this index is of interest (sub-commands that cannot jump to a
+// case regenerate the cases before it and their issues are dropped here)
+var replayIndex = -1
+
 func (r *Report) Issue(i Issue) {
+	if replayIndex >= 0 && i.Index != replayIndex && i.Index >= 0 {
+		return
+	}
 	r.Hist["issue:"+i.Fingerprint]++
 	// keep at most 3 instances per fingerprint so that one frequent class cannot crowd out others
 	cnt := 0
